@@ -245,14 +245,6 @@ impl<'a, 'h> Interp<'a, 'h> {
         }
     }
 
-    fn opt_num(&self, args: &[Value], i: usize, fname: &str, default: f64) -> R<f64> {
-        if arg(args, i).is_nil() {
-            Ok(default)
-        } else {
-            self.check_num(args, i, fname)
-        }
-    }
-
     /// integer argument: the number truncated towards zero
     fn check_int(&self, args: &[Value], i: usize, fname: &str) -> R<i64> {
         Ok(self.check_num(args, i, fname)? as i64)
@@ -342,7 +334,7 @@ impl<'a, 'h> Interp<'a, 'h> {
                 let n = self.check_int(&args, 0, "select")?;
                 let count = (args.len() - 1) as i64;
                 let start = if n < 0 {
-                    count + n
+                    count.saturating_add(n)
                 } else if n > count {
                     count
                 } else {
@@ -441,7 +433,7 @@ impl<'a, 'h> Interp<'a, 'h> {
                 if i > j {
                     return Ok(Vec::new());
                 }
-                if j - i >= 8000 {
+                if j.saturating_sub(i) >= 8000 {
                     return rt("too many results to unpack");
                 }
                 self.charge(((j - i) / 8) as u64)?;
@@ -491,8 +483,8 @@ impl<'a, 'h> Interp<'a, 'h> {
                     3 => {
                         let pos = self.check_int(&args, 1, "insert")?;
                         let e = n + 1;
-                        if e - pos > 0 {
-                            self.charge(((e - pos) / 8) as u64)?;
+                        if e.saturating_sub(pos) > 0 {
+                            self.charge((e.saturating_sub(pos) / 8) as u64)?;
                         }
                         let mut i = e;
                         while i > pos {
@@ -532,7 +524,7 @@ impl<'a, 'h> Interp<'a, 'h> {
                 let mut out: Vec<u8> = Vec::new();
                 let mut k = i;
                 if j > i {
-                    self.charge(((j - i) / 8).min(1 << 40) as u64)?;
+                    self.charge((j.saturating_sub(i) / 8).min(1 << 40) as u64)?;
                 }
                 while k <= j {
                     match self.tables[t as usize].get_int(k as f64) {
@@ -542,6 +534,8 @@ impl<'a, 'h> Interp<'a, 'h> {
                     }
                     if k != j {
                         out.extend_from_slice(&sep);
+                    } else {
+                        break;
                     }
                     if out.len() > MAX_STRING {
                         return Err(Abort::OutOfSteps);
@@ -791,8 +785,8 @@ impl<'a, 'h> Interp<'a, 'h> {
 /// Lua's translation of (i, j) string positions into a 1-based inclusive range clipped to the
 /// string (an empty range has i > j)
 fn str_range(i: i64, j: i64, len: i64) -> (i64, i64) {
-    let mut i = if i < 0 { (len + i + 1).max(0) } else { i };
-    let mut j = if j < 0 { len + j + 1 } else { j };
+    let mut i = if i < 0 { len.saturating_add(i).saturating_add(1).max(0) } else { i };
+    let mut j = if j < 0 { len.saturating_add(j).saturating_add(1) } else { j };
     if i < 1 {
         i = 1;
     }
